@@ -238,23 +238,15 @@ def c17_transition(ctx: Ctx) -> List[Violation]:
         vid = m.split("dispatched vehicle ")[1].split(",")[0].split()[0]
         pre_v = ctx.pre.vehicles.get(vid)
         out.append(Violation("C17", c, d + (sname(pre_v) if pre_v else "-", instr_kind(ctx, vid)), m))
-    # a vehicle travelling to a request is recorded by it (the converse direction; needed for "offered again")
     for vid, v in ctx.post.vehicles.items():
-        s = v.vehicle_state
-        if s.__class__.__name__ == "DispatchTrip":
+        if sname(v) == "DispatchTrip":
             ctx.cov["c17:dispatchtrip_state"] += 1
-            r = ctx.post.requests.get(s.request_id)
-            if r is not None and r.dispatched_vehicle is None:
-                out.append(
-                    Violation("C17", "unrecorded_vehicle", (instr_kind(ctx, vid),), f"vehicle {vid} travels to request {s.request_id} whose record is empty")
-                )
     return out
 
 
 def c17_builtin_only(ctx: Ctx) -> List[Violation]:
-    """under the built-in dispatcher alone at most one vehicle travels to a request"""
-    if any(e[0] == "I" for e in ctx.events):
-        return []
+    """under the built-in dispatcher alone (world without controller menu) at most one vehicle travels to a request,
+    and a waiting request without a record is offered again as soon as an eligible vehicle exists"""
     cnt: Counter = Counter()
     for v in ctx.post.vehicles.values():
         s = v.vehicle_state
@@ -262,8 +254,30 @@ def c17_builtin_only(ctx: Ctx) -> List[Violation]:
             cnt[s.request_id] += 1
     out = []
     for rid, n in cnt.items():
-        if n > 1 and not ctx.hv_post_has_controller():
+        if n > 1:
             out.append(Violation("C17", "two_vehicles", (), f"{n} vehicles travel to request {rid} under the built-in dispatcher"))
+        ctx.cov["c17:vehicle_under_way_at_step_boundary"] += 1
+    # offered again: ask the real dispatcher on the post-state
+    disp = [g for g in ctx.world.builtin_generators if g.__class__.__name__ == "Dispatcher"]
+    if disp:
+        _, instrs = disp[0].generate_instructions(ctx.post, ctx.env)
+        offered = {i.request_id for i in instrs}
+        fleets = sorted(ctx.env.fleet_ids) or [None]
+        for f in fleets:
+            eligible = [
+                v for v in ctx.post.vehicles.values()
+                if sname(v) in ("Idle", "Repositioning") and v.driver_state.available and sum(v.energy.values()) > 0
+                and (f is None or f in v.membership.memberships)
+            ]
+            open_reqs = [
+                r for r in ctx.post.requests.values()
+                if r.dispatched_vehicle is None and (f is None or f in r.membership.memberships)
+            ]
+            if open_reqs and eligible:
+                ctx.cov["c17:open_request_offered"] += 1
+                n = len([r for r in open_reqs if r.id in offered])
+                if n < min(len(eligible), len(open_reqs)):
+                    out.append(Violation("C17", "not_offered_again", (), f"{len(open_reqs)} waiting request(s) of fleet {f} without assigned vehicle, {len(eligible)} eligible vehicle(s), but the dispatcher offers only {n}"))
     return out
 
 
@@ -299,3 +313,184 @@ def cov_matrix(ctx: Ctx) -> List[Violation]:
 
 def outcome_vector(ctx: Ctx):
     return tuple(sorted((vid, sname(v)) for vid, v in ctx.post.vehicles.items())) + (len(ctx.post.requests),)
+
+
+# ---------------------------------------------------------------------------------------------------
+# C03 -- every request resolved exactly once (world must provide the status history variable of w_req)
+
+_KWH_PER_KM: dict = {}
+
+
+def energy_per_km(env, mech_id: str, speed: float = 40.0) -> float:
+    """consumption of this powertrain on a 1 km link at `speed`, asked of the mechatronics once"""
+    k = (id(env.mechatronics), mech_id, speed)
+    if k not in _KWH_PER_KM:
+        from nrel.hive.model.roadnetwork.linktraversal import LinkTraversal
+        from nrel.hive.model.vehicle.mechatronics.powertrain.powertrain import Powertrain  # noqa: F401
+
+        m = env.mechatronics[mech_id]
+        cost = m.powertrain.energy_cost((LinkTraversal("x", "a", "b", 1.0, speed),))
+        from nrel.hive.util.units import get_unit_conversion, Unit
+
+        unit = Unit.KILOWATT_HOUR if mech_id != "ice" and hasattr(m, "battery_capacity_kwh") else Unit.GALLON_GASOLINE
+        _KWH_PER_KM[k] = cost * get_unit_conversion(m.powertrain.energy_units, unit)
+    return _KWH_PER_KM[k]
+
+
+def route_km(route) -> float:
+    return sum(l.distance_km for l in route)
+
+
+def out_of_energy_plausible(ctx: Ctx, vid: str) -> bool:
+    """could the pre-state vehicle have lacked the energy for this step's movement? (independent estimate:
+    consumption per km of its powertrain x the distance it could cover in one step along its route)"""
+    v = ctx.pre.vehicles[vid]
+    s = v.vehicle_state
+    route = getattr(s, "route", ())
+    step_s = ctx.pre.sim_timestep_duration_seconds
+    speeds = [l.speed_kmph for l in route if l.speed_kmph > 0] or [40.0]
+    reach = max(speeds) * step_s / 3600.0
+    dist = min(route_km(route), reach) if route else reach
+    need = energy_per_km(ctx.env, v.mechatronics_id, max(speeds)) * dist
+    have = sum(v.energy.values())
+    return have <= need * 1.02 + 1e-9
+
+
+def _status(hv, rid):
+    return dict(hv[1]).get(rid, "unseen")
+
+
+def c03_transition(ctx: Ctx) -> List[Violation]:
+    out: List[Violation] = []
+    released_post = ctx.hv_post[0]
+    pickups = Counter()
+    pick_by = {}
+    for r in ctx.of_type("PICKUP_REQUEST_EVENT"):
+        pickups[r["request_id"]] += 1
+        pick_by[r["request_id"]] = r
+    cancels = Counter(r["request_id"] for r in ctx.of_type("CANCEL_REQUEST_EVENT"))
+    drops = Counter()
+    drop_by = {}
+    for r in ctx.of_type("DROPOFF_REQUEST_EVENT"):
+        drops[r["request_id"]] += 1
+        drop_by[r["request_id"]] = r
+    adds = Counter(r["request_id"] for r in ctx.of_type("ADD_REQUEST_EVENT"))
+    instructed = ctx.instructed()
+    carrying_post = {}
+    for vid, v in ctx.post.vehicles.items():
+        s = v.vehicle_state
+        if s.__class__.__name__ == "ServicingTrip":
+            carrying_post[s.request.id] = vid
+
+    for e in ctx.events:
+        if e[0] == "R" and adds[e[1]] != 1:
+            out.append(Violation("C03", "admission", (str(adds[e[1]]),), f"request {e[1]} released now, {adds[e[1]]} add event(s)"))
+
+    for rid in sorted(released_post):
+        a, b = _status(ctx.hv_pre, rid), _status(ctx.hv_post, rid)
+        spec = ctx.world.request_specs[rid]
+        if a in ("dropped", "cancelled", "stranded", "vanished"):
+            if pickups[rid] or cancels[rid] or drops[rid] or adds[rid] or rid in ctx.post.requests or rid in carrying_post:
+                out.append(Violation("C03", "after_resolution", (a,), f"request {rid} was {a} and is referred to again"))
+            continue
+        if a in ("unseen", "waiting"):
+            if b == "waiting":
+                if pickups[rid] or cancels[rid] or drops[rid]:
+                    out.append(Violation("C03", "event_while_waiting", (), f"request {rid} still waiting but pickup/cancel/drop-off event filed"))
+                continue
+            # left the waiting set
+            if b == "vanished":
+                out.append(Violation("C03", "vanished", (), f"request {rid} left the simulation without pickup or cancel event"))
+                continue
+            if pickups[rid] + cancels[rid] != 1:
+                out.append(Violation("C03", "resolved_not_once", (f"p{pickups[rid]}c{cancels[rid]}",), f"request {rid}: {pickups[rid]} pickup and {cancels[rid]} cancel events in the step it was resolved"))
+                continue
+            if cancels[rid]:
+                ctx.cov["c03:cancel"] += 1
+                if any(getattr(v.vehicle_state, "request_id", None) == rid for v in ctx.pre.vehicles.values()):
+                    ctx.cov["c03:cancel_while_vehicle_en_route"] += 1
+                if rid in carrying_post:
+                    out.append(Violation("C03", "cancelled_and_carried", (), f"request {rid} cancelled but on board of {carrying_post[rid]}"))
+                continue
+            # picked up
+            ctx.cov["c03:pickup"] += 1
+            pr = pick_by[rid]
+            vid = pr["vehicle_id"]
+            if b.startswith("onboard:") and b.split(":", 1)[1] != vid:
+                out.append(Violation("C03", "pickup_vehicle", (), f"request {rid}: pickup event names {vid}, carried by {b}"))
+            if b == "stranded":
+                ctx.cov["c03:stranded"] += 1
+                if not out_of_energy_plausible(ctx, vid):
+                    out.append(Violation("C03", "diverted", ("OutOfService", instr_kind(ctx, vid)), f"vehicle {vid} picked up {rid} and went out of service with energy left"))
+            if b == "dropped":
+                ctx.cov["c03:pickup_and_dropoff_same_step"] += 1
+                if drops[rid] != 1:
+                    out.append(Violation("C03", "dropoff_count", (str(drops[rid]), "same_step"), f"request {rid} picked up and gone in one step with {drops[rid]} drop-off events"))
+            # fare credited exactly once to the vehicle that picked it up
+            pre_v, post_v = ctx.pre.vehicles.get(vid), ctx.post.vehicles.get(vid)
+            if pre_v is not None and post_v is not None:
+                fares = sum(float(p["price"]) for p in ctx.of_type("PICKUP_REQUEST_EVENT") if p["vehicle_id"] == vid)
+                paid = sum(float(c["price"]) for c in ctx.of_type("VEHICLE_CHARGE_EVENT") if c["vehicle_id"] == vid)
+                d = post_v.balance - pre_v.balance
+                if abs(d - (fares - paid)) > 1e-9:
+                    out.append(Violation("C03", "fare", (), f"vehicle {vid} balance changed by {d}, fares {fares} - payments {paid}"))
+                if float(pr["price"]) <= 0:
+                    out.append(Violation("C03", "fare_zero", (), f"request {rid} picked up with fare {pr['price']}"))
+            for ovid, ov in ctx.post.vehicles.items():
+                if ovid != vid and ovid in ctx.pre.vehicles:
+                    ofares = sum(float(p["price"]) for p in ctx.of_type("PICKUP_REQUEST_EVENT") if p["vehicle_id"] == ovid)
+                    opaid = sum(float(c["price"]) for c in ctx.of_type("VEHICLE_CHARGE_EVENT") if c["vehicle_id"] == ovid)
+                    if abs((ov.balance - ctx.pre.vehicles[ovid].balance) - (ofares - opaid)) > 1e-9:
+                        out.append(Violation("C03", "fare_other", (), f"vehicle {ovid} balance changed without a pickup of its own"))
+            continue
+        if a.startswith("onboard:"):
+            vid = a.split(":", 1)[1]
+            if pickups[rid] or cancels[rid]:
+                out.append(Violation("C03", "event_while_onboard", (), f"request {rid} on board of {vid}: pickup/cancel event filed again"))
+            if b == a:
+                if drops[rid]:
+                    out.append(Violation("C03", "dropoff_but_onboard", (), f"request {rid} still on board of {vid} but drop-off event filed"))
+                continue
+            if b.startswith("onboard:"):
+                out.append(Violation("C03", "changed_vehicle", (), f"request {rid} moved from {a} to {b}"))
+                continue
+            if b == "dropped":
+                ctx.cov["c03:dropoff_later_step"] += 1
+                if drops[rid] != 1:
+                    out.append(Violation("C03", "dropoff_count", (str(drops[rid]), instr_kind(ctx, vid)), f"request {rid} left vehicle {vid} with {drops[rid]} drop-off events"))
+                else:
+                    dr = drop_by[rid]
+                    if dr["vehicle_id"] != vid:
+                        out.append(Violation("C03", "dropoff_vehicle", (), f"request {rid} carried by {vid}, dropped by {dr['vehicle_id']}"))
+                    if dr["geoid"] != spec["destination"] or ctx.post.vehicles[vid].geoid != spec["destination"]:
+                        out.append(Violation("C03", "dropoff_place", (), f"request {rid} dropped on {dr['geoid']}, destination {spec['destination']}"))
+            elif b == "stranded":
+                ctx.cov["c03:stranded"] += 1
+                if not out_of_energy_plausible(ctx, vid):
+                    out.append(Violation("C03", "diverted", ("OutOfService", instr_kind(ctx, vid)), f"vehicle {vid} carrying {rid} went out of service with energy left"))
+    # no instruction can divert a vehicle that is carrying passengers
+    for vid, pre_v in ctx.pre.vehicles.items():
+        s = pre_v.vehicle_state
+        if s.__class__.__name__ != "ServicingTrip" or len(s.route) == 0:
+            continue
+        post_s = ctx.post.vehicles[vid].vehicle_state
+        pn = post_s.__class__.__name__
+        if vid in instructed:
+            ctx.cov["c03:instruction_to_vehicle_with_passengers"] += 1
+        if pn == "ServicingTrip":
+            if post_s.request.id != s.request.id:
+                out.append(Violation("C03", "diverted", ("other_request", instr_kind(ctx, vid)), f"vehicle {vid} swapped passengers"))
+            ids_pre = [l.link_id for l in s.route]
+            ids_post = [l.link_id for l in post_s.route]
+            if ids_post and ids_pre[-len(ids_post):] != ids_post:
+                out.append(Violation("C03", "diverted", ("route_changed", instr_kind(ctx, vid)), f"vehicle {vid} route changed while carrying passengers"))
+        elif pn == "OutOfService":
+            if not out_of_energy_plausible(ctx, vid):
+                out.append(Violation("C03", "diverted", ("OutOfService", instr_kind(ctx, vid)), f"vehicle {vid} carrying {s.request.id} went out of service with energy left"))
+        elif pn == "Idle" and drops[s.request.id] == 1:
+            pass  # arrived and dropped off, default transition in a later step is Idle
+        else:
+            # left the trip mid-route
+            if drops[s.request.id] != 1:
+                out.append(Violation("C03", "diverted", (pn, instr_kind(ctx, vid)), f"vehicle {vid} carrying {s.request.id} mid-route became {pn}"))
+    return out
